@@ -543,7 +543,7 @@ static int ec_read(char *loc, char *cmd, char *arg, char *txt)
 	char *obuf;
 	int n = lbuf_len(xb);
 	path = arg[0] ? ex_pathexpand(arg, 1) : ex_path();
-	if (ex_region(loc, &beg, &end) || path == NULL)
+	if ((ex_region(loc, &beg, &end) && (beg != 0 || end != 0)) || path == NULL)
 		return 1;
 	pos = lbuf_len(xb) ? end : 0;
 	if (path[0] == '!') {
@@ -673,7 +673,7 @@ static int ec_print(char *loc, char *cmd, char *arg, char *txt)
 	if (!cmd[0] && !loc[0])
 		if (xrow >= lbuf_len(xb))
 			return 1;
-	if (ex_region(loc, &beg, &end))
+	if (ex_region(loc, &beg, &end) || !end)
 		return 1;
 	for (i = beg; i < end; i++)
 		ex_print(lbuf_get(xb, i));
@@ -736,7 +736,7 @@ static int ec_put(char *loc, char *cmd, char *arg, char *txt)
 	char *buf;
 	int n = lbuf_len(xb);
 	buf = reg_get(REG(arg), &lnmode);
-	if (!buf || ex_region(loc, &beg, &end))
+	if (!buf || (ex_region(loc, &beg, &end) && (beg != 0 || end != 0)))
 		return 1;
 	lbuf_edit(xb, buf, end, end);
 	xrow = MIN(lbuf_len(xb) - 1, end + lbuf_len(xb) - n - 1);
@@ -747,7 +747,7 @@ static int ec_lnum(char *loc, char *cmd, char *arg, char *txt)
 {
 	char msg[128];
 	int beg, end;
-	if (ex_region(loc, &beg, &end))
+	if (ex_region(loc, &beg, &end) || !end)
 		return 1;
 	sprintf(msg, "%d\n", end);
 	ex_print(msg);
@@ -767,7 +767,7 @@ static int ec_redo(char *loc, char *cmd, char *arg, char *txt)
 static int ec_mark(char *loc, char *cmd, char *arg, char *txt)
 {
 	int beg, end;
-	if (ex_region(loc, &beg, &end))
+	if (ex_region(loc, &beg, &end) || !end)
 		return 1;
 	lbuf_mark(xb, (unsigned char) arg[0], end - 1, 0);
 	return 0;
